@@ -122,6 +122,23 @@ MUST_FIRE = [
      "is_lbld = is_labeled(y, missing_label=self.missing_label_)", "is_lbld = is_labeled(y)"),
     ("vote-vectors-weights-not-copied", ["C12", "C05"], ["R12.5", "R5.2"], P + "utils/_aggregation.py",
      "w, ensure_2d=False, ensure_all_finite=False, dtype=float, copy=True", "w, ensure_2d=False, ensure_all_finite=False, dtype=float"),
+    ("majority-vote-zero-rows-to-sentinel", ["C17"], ["R17.3"], P + "utils/_aggregation.py",
+     "        vote_vector = rand_argmax(vote_matrix, random_state, axis=1)\n",
+     "        vote_vector = rand_argmax(vote_matrix, random_state, axis=1)\n        vote_vector[np.sum(vote_matrix, axis=1) == 0] = -1\n"),
+    ("vote-vectors-weights-not-copied-c17", ["C17"], ["R17.4"], P + "utils/_aggregation.py",
+     "w, ensure_2d=False, ensure_all_finite=False, dtype=float, copy=True", "w, ensure_2d=False, ensure_all_finite=False, dtype=float"),
+    ("confusion-mask-wrong-column", ["C17"], ["R17.1"], P + "utils/_multi_annot.py",
+     "is_not_nan_a = is_labeled(y[:, a + 1], missing_label=-1)", "is_not_nan_a = is_labeled(y[:, a], missing_label=-1)"),
+    ("icw-unique-by-position", ["C19"], ["R19.8"], P + "pool/utils.py",
+     "cur_idx = np.array([i not in add_idx for i in self.idx_])", "cur_idx = np.setdiff1d(np.arange(len(self.idx_)), add_idx)"),
+    ("icw-none-guard-wrong-variable", ["C19"], ["R19.7"], P + "pool/utils.py",
+     "            if add_sample_weight is None:\n                self.clf_.partial_fit(self.X[add_idx], add_y)",
+     "            if sample_weight is None:\n                self.clf_.partial_fit(self.X[add_idx], add_y)"),
+    ("icw-twin-rebuilt-without-all-params", ["C19"], ["R19.6"], P + "pool/utils.py",
+     "            self.clf_ = clone(self.clf)\n            self.clf_.metric = \"precomputed\"\n            self.clf_.metric_dict = {}\n",
+     "            self.clf_ = ParzenWindowClassifier(\n                metric=\"precomputed\",\n                classes=self.clf.classes,\n                missing_label=self.clf.missing_label,\n                cost_matrix=self.clf.cost_matrix,\n                class_prior=self.clf.class_prior,\n                random_state=self.clf.random_state,\n            )\n"),
+    ("ssw-ratio-over-all-samples", ["C20"], ["R20.2"], P + "pool/_wrapper.py",
+     "max_candidates = ceil(len(candidates) * self.max_candidates)", "max_candidates = ceil(len(X) * self.max_candidates)"),
     # ---- C03
     ("split-set-state-deleted", ["C03"], ["R3"], BZ,
      "        self.random_state_.set_state(random_state_state)\n", "        pass\n"),
